@@ -165,6 +165,16 @@ func (changes *Changes) GetDSC() (*DSC, error) {
 	return nil, fmt.Errorf("No .dsc file in .changes")
 }
 
+// Make sure every file listed by the .changes is a plain file name.
+func (changes *Changes) checkFiles() error {
+	for _, file := range changes.Files {
+		if err := file.checkFilename(); err != nil {
+			return err
+		}
+	}
+	return nil
+}
+
 // Copy the .changes file and all referenced files to the directory
 // listed by the dest argument. This function will error out if the dest
 // argument is not a directory, or if there is an IO operation in transfer.
@@ -175,6 +185,9 @@ func (changes *Changes) GetDSC() (*DSC, error) {
 func (changes *Changes) Copy(dest string) error {
 	if file, err := os.Stat(dest); err == nil && !file.IsDir() {
 		return fmt.Errorf("Attempting to move .changes to a non-directory")
+	}
+	if err := changes.checkFiles(); err != nil {
+		return err
 	}
 
 	for _, file := range changes.AbsFiles() {
@@ -202,6 +215,9 @@ func (changes *Changes) Move(dest string) error {
 	if file, err := os.Stat(dest); err == nil && !file.IsDir() {
 		return fmt.Errorf("Attempting to move .changes to a non-directory")
 	}
+	if err := changes.checkFiles(); err != nil {
+		return err
+	}
 
 	for _, file := range changes.AbsFiles() {
 		dirname := filepath.Base(file.Filename)
@@ -221,6 +237,9 @@ func (changes *Changes) Move(dest string) error {
 // always remove the .changes last, in the event there are filesystem i/o errors
 // on removing associated files.
 func (changes *Changes) Remove() error {
+	if err := changes.checkFiles(); err != nil {
+		return err
+	}
 	for _, file := range changes.AbsFiles() {
 		err := os.Remove(file.Filename)
 		if err != nil {
